@@ -347,7 +347,7 @@ def runKList (op : Toks) (s : KL Int) (inj : Option Nat := none) : String :=
   | ["clear"] => ok "ok" s.clear
   | ["isempty"] => ok (toString s.buf.isEmpty) s
   | ["export", t] => match tokInt t with
-    | some t => let (s', vals) := s.export t; ok s!"{showInts vals}" s'
+    | some t => let (s', vals) := s.export t; ok s!"{showInts vals} cap={vals.length}" s'
     | none => "BAD"
   | [m, t, k] =>
     let mode : Option (Mode × Bool) := match m with
